@@ -460,7 +460,27 @@ def execute_race_all_placements(ctx, case):
     execute_race(ctx, dict(case, switches=[[k, 1]], first=1))
 
 
+def directed_race_cases():
+  """the specific section moves in front of (or behind) one the writer's rule search has already passed: whatever the
+  search then lands on, the file must be created from the first match of the old or of the new list"""
+  def sec(name, kind, arg, rets, archives):
+    return {'name': name, 'kind': 'full', 'pattern': rx.make(kind, arg), 'rets': rets, 'archives': archives, 'caps': 'lower', 'ret_sep': ','}
+  carbon = sec('s0', 'prefix', 'carbon', ['60:90d'], [[60, 129600]])
+  load = sec('s3', 'suffix', 'load', ['1h:1y'], [[3600, 8760]])
+  rest = sec('s4', 'anything', '', ['5m:2w'], [[300, 4032]])
+  out = []
+  for old, new in (([load, carbon, rest], [carbon, load, rest]), ([carbon, load, rest], [load, carbon, rest]),
+                   ([load, carbon, rest], [carbon, rest]), ([carbon, rest], [load, carbon, rest])):
+    for names in (['carbon.agents.x', 'servers.db.load'], ['servers.db.load', 'carbon.agents.x']):
+      out.append({'kind': 'reload-race', 'schemas': old, 'aggs': [], 'names': names, 'new_schemas': new, 'new_aggs': [],
+                  'agg_file_missing': False, 'switches': [], 'first': 1})
+  return out
+
+
 def run(ctx):
+  for case in directed_race_cases():
+    for k in range(1, 140):
+      execute_race(ctx, dict(case, switches=[[k, 1]], first=1))
   run_given(ctx, cases(), execute, ctx.scale(500, 4000), salt=1)
   run_given(ctx, race_cases(), execute, ctx.scale(120, 1500), salt=2)
   run_given(ctx, race_cases(), execute_race_all_placements, ctx.scale(30, 300), salt=3)
